@@ -127,6 +127,237 @@ func (r Root) GetMids() []Mid {
 }
 func (r Root) secret() string { return r.p + ".secret()" }
 
+// ---- second family: a recursive Node ("n") -------------------------------------------------
+//
+// Every member leads back to a Node, so every ORDER of steps exists: a method
+// that returns a struct after a field after an index (n.Kids[0].Next.Kid(1).Name),
+// the same member or method name at every level, chains of any length. A node
+// built by a method spells the call (n.Kid(1).Kids[0].Name).
+
+type Node struct {
+	Name string
+	Kids []Node
+	Next *Node
+	M    map[string]*Node
+	Any  interface{}
+	p    string
+	v, d int // data recipe, depth left for what the methods build
+}
+
+func (n Node) Hello() string         { return n.p + ".Hello()" }
+func (n Node) Greet(s string) string { return n.p + ".Greet(" + s + ")" }
+
+// Echo takes any value: an argument that arrives as something else than what the template wrote is seen in the leaf.
+func (n Node) Echo(x interface{}) string { return n.p + ".Echo(" + fmt.Sprint(x) + ")" }
+func (n Node) Kid(i int) Node            { return mkNode(n.p+".Kid("+strconv.Itoa(i)+")", min(n.d-1, 2), n.d-1, n.v) }
+func (n *Node) PKid(i int) *Node {
+	if n == nil {
+		return nil
+	}
+	k := mkNode(n.p+".PKid("+strconv.Itoa(i)+")", min(n.d-1, 2), n.d-1, n.v)
+	return &k
+}
+func (n Node) GetKids() []Node {
+	return []Node{mkNode(n.p+".GetKids()[0]", min(n.d-1, 1), n.d-1, n.v), mkNode(n.p+".GetKids()[1]", min(n.d-1, 1), n.d-1, n.v)}
+}
+
+// mkNode: eager = levels of members built now, d = levels the methods may still build.
+//
+//	recipe 0: 2 kids, Next set, M has a and b, Any holds a Node
+//	recipe 1: 3 kids / 1 kid alternating by level, Next nil on every third level, M has b and a nil a, Any holds a *Node
+//
+// Kids[0], Next and M[b] carry the full remaining depth as long as the path
+// from the root uses that one member only (the spines n.Kids[0].Kids[0]...,
+// n.Next.Next..., n.M[b].M[b]...); every other member is built 3 levels deep.
+func mkNode(p string, eager, d, v int) Node { return mkNodeVia(p, eager, d, v, 0) }
+
+func mkNodeVia(p string, eager, d, v int, via byte) Node {
+	n := Node{p: p, v: v, d: max(d, 0), Name: p + ".Name"}
+	if eager <= 0 {
+		return n
+	}
+	depth := func(kind byte) int {
+		if via == 0 || via == kind {
+			return eager - 1
+		}
+		return min(eager-1, 3)
+	}
+	side := min(eager-1, 3)
+	sub := func(q string, e int, kind byte) *Node { k := mkNodeVia(q, e, d-1, v, kind); return &k }
+	nk := 2
+	if v == 1 {
+		nk = []int{3, 1}[eager%2]
+	}
+	for i := 0; i < nk; i++ {
+		if i == 0 {
+			n.Kids = append(n.Kids, mkNodeVia(p+".Kids[0]", depth('K'), d-1, v, 'K'))
+		} else {
+			n.Kids = append(n.Kids, mkNodeVia(p+".Kids["+strconv.Itoa(i)+"]", side, d-1, v, 'x'))
+		}
+	}
+	if v == 0 || eager%3 != 0 || via == 'N' || via == 0 {
+		n.Next = sub(p+".Next", depth('N'), 'N')
+	}
+	if v == 0 {
+		n.M = map[string]*Node{"a": sub(p+".M[a]", side, 'x'), "b": sub(p+".M[b]", depth('M'), 'M')}
+		n.Any = *sub(p+".Any", side, 'x')
+	} else {
+		n.M = map[string]*Node{"a": nil, "b": sub(p+".M[b]", depth('M'), 'M')}
+		n.Any = sub(p+".Any", side, 'x')
+	}
+	return n
+}
+
+const nodeDepth = 10
+
+// ---- third family: Ext ("x") ------------------------------------------------------------------
+//
+// Shapes the Root family does not have: embedded structs (by value, by pointer
+// - nil in recipe 1 -, of an unexported type) with promoted and shadowed
+// fields and promoted methods; consecutive indexes (slice of slices, map of
+// maps, map of slices, slice of maps); interface-typed ELEMENTS (JSON-like
+// map[string]interface{} / []interface{} nests, a slice of structs of different
+// types with the same member names in a different order); a map keyed by
+// interface{}; named slice and map types with methods; a pointer to an array.
+// A promoted member is reachable by two spellings (x.BName, x.Base.BName): the
+// leaf spells the short one.
+
+type Base struct {
+	BName string
+	Name  string // shadowed by Ext.Name
+	Tags  []string
+	p     string
+}
+
+func (b Base) BHello() string   { return b.p + ".BHello()" }
+func (b *Base) BPHello() string { return b.p + ".BPHello()" }
+
+type ubase struct {
+	UName string
+	up    string
+}
+
+func (u ubase) UHello() string { return u.up + ".UHello()" }
+
+type PBase struct {
+	PBName string
+	PIn    Inner
+	pp     string
+}
+
+func (b PBase) PBHello() string { return b.pp + ".PBHello()" }
+
+type P struct {
+	A, B, C string
+	p       string
+}
+type Q struct {
+	p       string
+	C, B, A string
+}
+
+func (p P) Alpha() string { return p.p + ".Alpha()" }
+func (p P) Beta() string  { return p.p + ".Beta()" }
+func (q Q) Beta() string  { return q.p + ".Beta()" }
+func (q Q) Gamma() string { return q.p + ".Gamma()" }
+
+type Names []string
+
+func (n Names) First() string { return strings.TrimSuffix(n[0], "[0]") + ".First()" } // never empty in the recipes
+
+type Dict map[string]string
+
+func (d Dict) Get(k string) string { return strings.TrimSuffix(d["b"], "[b]") + ".Get(" + k + ")" } // b is in every recipe
+
+type Ext struct {
+	Base
+	ubase
+	*PBase
+	Name string
+	Grid [][]string
+	MM   map[string]map[string]string
+	MS   map[string][]Leaf
+	SM   []map[string]*Leaf
+	AM   map[interface{}]string
+	Het  []interface{}
+	JS   map[string]interface{}
+	JA   []interface{}
+	NS   Names
+	D    Dict
+	PA   *[2]string
+	Xs   []Ext
+	p    string
+	v, d int
+}
+
+func (x Ext) GetX() Ext { return mkExt(x.p+".GetX()", x.v, x.d-1) }
+
+func mkP(p string) P { return P{p: p, A: p + ".A", B: p + ".B", C: p + ".C"} }
+func mkQ(p string) Q { return Q{p: p, A: p + ".A", B: p + ".B", C: p + ".C"} }
+
+func mkExt(p string, v, d int) Ext {
+	x := Ext{p: p, v: v, d: max(d, 0), Name: p + ".Name"}
+	x.Base = Base{p: p, BName: p + ".BName", Name: p + ".Base.Name", Tags: []string{p + ".Tags[0]", p + ".Tags[1]"}}
+	x.ubase = ubase{up: p, UName: p + ".UName"}
+	if v == 0 {
+		x.PBase = &PBase{pp: p, PBName: p + ".PBName", PIn: Inner{Name: p + ".PIn.Name", p: p + ".PIn"}}
+	}
+	x.Grid = [][]string{{p + ".Grid[0][0]", p + ".Grid[0][1]"}, {p + ".Grid[1][0]", p + ".Grid[1][1]"}}
+	x.MM = map[string]map[string]string{"a": {"a": p + ".MM[a][a]", "b": p + ".MM[a][b]"}, "b": {"a": p + ".MM[b][a]", "b": p + ".MM[b][b]"}}
+	x.MS = map[string][]Leaf{"a": mkLeaves(p+".MS[a]", 2, v), "b": mkLeaves(p+".MS[b]", 2, v)}
+	x.SM = []map[string]*Leaf{{"a": pLeaf(p+".SM[0][a]", v), "b": pLeaf(p+".SM[0][b]", v)}, {"a": pLeaf(p+".SM[1][a]", v), "b": pLeaf(p+".SM[1][b]", v)}}
+	x.AM = map[interface{}]string{1: p + ".AM[1]", "a": p + ".AM[a]", 3: p + ".AM[3]", "b": p + ".AM[b]"}
+	x.Het = []interface{}{mkP(p + ".Het[0]"), mkQ(p + ".Het[1]")}
+	hp, hq := mkP(p+".Het[2]"), mkQ(p+".Het[3]")
+	x.Het = append(x.Het, &hp, &hq)
+	x.JS = map[string]interface{}{
+		"a": map[string]interface{}{"a": []interface{}{mkLeaf(p+".JS[a][a][0]", v), pLeaf(p+".JS[a][a][1]", v)}, "b": p + ".JS[a][b]"},
+		"b": mkLeaf(p+".JS[b]", v),
+	}
+	x.JA = []interface{}{mkLeaf(p+".JA[0]", v), map[string]interface{}{"a": p + ".JA[1][a]", "b": pLeaf(p+".JA[1][b]", v)}, []interface{}{p + ".JA[2][0]", mkLeaf(p+".JA[2][1]", v)}}
+	x.NS = Names{p + ".NS[0]", p + ".NS[1]"}
+	x.D = Dict{"a": p + ".D[a]", "b": p + ".D[b]"}
+	x.PA = &[2]string{p + ".PA[0]", p + ".PA[1]"}
+	if v == 1 {
+		// irregular: short, empty and nil inner collections, nil elements
+		x.Grid = [][]string{{p + ".Grid[0][0]"}, {}, nil}
+		x.MM = map[string]map[string]string{"a": nil, "b": {"b": p + ".MM[b][b]"}}
+		x.MS = map[string][]Leaf{"a": {}, "b": mkLeaves(p+".MS[b]", 1, v)}
+		x.SM = []map[string]*Leaf{nil, {"a": nil, "b": pLeaf(p+".SM[1][b]", v)}}
+		x.JS["a"] = map[string]interface{}{"a": []interface{}{nil, pLeaf(p+".JS[a][a][1]", v)}, "b": nil}
+		x.JA[0] = nil
+		x.NS = Names{p + ".NS[0]"}
+		x.D = Dict{"b": p + ".D[b]"}
+		x.PA = nil
+	}
+	if d > 0 {
+		x.Xs = []Ext{mkExt(p+".Xs[0]", v, d-1), mkExt(p+".Xs[1]", v, d-1)}
+	}
+	return x
+}
+
+// canonLeaf: the spelling a leaf uses for itself: without the names of the
+// embedded structs a promoted member was reached through (x.Base.BName and
+// x.BName are the same leaf; Base.Name, shadowed, keeps its long spelling).
+func canonLeaf(path string) string {
+	for _, e := range []string{".Base", ".ubase", ".PBase"} {
+		from := 0
+		for {
+			i := strings.Index(path[from:], e+".")
+			if i < 0 {
+				break
+			}
+			i += from
+			if e == ".Base" && path[i:] == ".Base.Name" {
+				break
+			}
+			path = path[:i] + path[i+len(e):]
+			from = i
+		}
+	}
+	return path
+}
+
 // ---- data recipes: variant 0 ("regular") and 1 ("irregular") -----------------------
 //
 //	variant 0: every slice has 2 elements, string maps have keys a,b, int maps 1,3,
@@ -227,6 +458,7 @@ type Arg struct {
 	Int bool   `json:"int,omitempty"`
 	Var bool   `json:"var,omitempty"`
 	Sw  bool   `json:"sw,omitempty"` // the value is the sweep variable q of Case.Sweep (I / S are ignored)
+	N   string `json:"n,omitempty"`  // with Var: the name of the context variable (default i1, im1, ka, ...); used to give an index variable the name of a member of the path
 }
 
 func (a Arg) spell() string {
@@ -237,6 +469,9 @@ func (a Arg) spell() string {
 }
 
 func (a Arg) varName() string {
+	if a.N != "" {
+		return a.N
+	}
 	if a.Int {
 		if a.I < 0 {
 			return "im" + strconv.Itoa(-a.I)
@@ -336,6 +571,36 @@ type Case struct {
 	Cuts    []Cut  `json:"cuts,omitempty"`
 	Twice   bool   `json:"twice,omitempty"` // the final expression is emitted twice: <%= e %>+<%= e %>
 	Sweep   *Sweep `json:"sweep,omitempty"` // the whole body is evaluated once per value of the variable q
+	Fam     string `json:"fam,omitempty"`   // type family of the root: "" Root, "node" Node, "ext" Ext
+	// Reexec: the template is parsed ONCE and the one Template is executed once per entry, in this
+	// order, each time against fresh data of that recipe / root form (Variant and Ptr are ignored)
+	Reexec []Exec `json:"reexec,omitempty"`
+	// Bulk: the emit is wrapped in `for (bi, bv) in bulk { }` over a slice of this many elements, so that
+	// ONE render evaluates the path expression that many times (every evaluation must give the same leaf)
+	Bulk int `json:"bulk,omitempty"`
+
+	pre *parsed // set while a Reexec case is judged
+}
+
+type Exec struct {
+	Variant int  `json:"variant"`
+	Ptr     bool `json:"ptr,omitempty"`
+}
+
+type parsed struct {
+	t   *plush.Template
+	err error
+}
+
+// rootSpell: how the leaves of a family spell the root.
+func (c Case) rootSpell() string {
+	switch c.Fam {
+	case "node":
+		return "n"
+	case "ext":
+		return "x"
+	}
+	return "r"
 }
 
 // Sweep: the template body (lets + emit) sits in ONE loop body and is evaluated
@@ -383,6 +648,51 @@ var ctxStrs = []string{"a", "b", "z", "x"}
 func (c Case) wellFormed() string {
 	if c.Variant < 0 || c.Variant > 1 {
 		return "bad variant"
+	}
+	if c.Fam != "" && c.Fam != "node" && c.Fam != "ext" {
+		return "bad family"
+	}
+	for _, e := range c.Reexec {
+		if e.Variant < 0 || e.Variant > 1 {
+			return "bad variant"
+		}
+	}
+	if c.Bulk < 0 || c.Bulk > 5000 || c.Bulk > 0 && (c.Sweep != nil || c.Twice || len(c.Cuts) > 0) {
+		return "bad bulk"
+	}
+	names := map[string]bool{c.Root: true, "kk": true, "bulk": true, "bi": true, "bv": true}
+	for _, k := range c.Cuts {
+		names[k.V] = true
+	}
+	if c.Sweep != nil {
+		for _, n := range []string{"q", "qk", "qv", "sw"} {
+			names[n] = true
+		}
+	}
+	custom := map[string]Arg{}
+	for _, s := range c.Steps {
+		for _, a := range s.A {
+			if a.N == "" {
+				continue
+			}
+			if !a.Var || a.Sw || !ident(a.N) || names[a.N] {
+				return "bad variable name"
+			}
+			if o, ok := custom[a.N]; ok && (o.Int != a.Int || o.I != a.I || o.S != a.S) {
+				return "one variable name with two values"
+			}
+			custom[a.N] = a
+		}
+	}
+	for _, i := range ctxInts {
+		if _, ok := custom[Arg{Int: true, I: i}.varName()]; ok {
+			return "bad variable name"
+		}
+	}
+	for _, x := range ctxStrs {
+		if _, ok := custom[Arg{S: x}.varName()]; ok {
+			return "bad variable name"
+		}
 	}
 	if !ident(c.Root) || strings.HasPrefix(c.Root, "kk") {
 		return "bad root name"
@@ -476,6 +786,10 @@ func (c Case) template() string {
 		}
 		closing = ";<% } %>"
 	}
+	if c.Bulk > 0 {
+		sb.WriteString("<%= for (bi, bv) in bulk { %>")
+		closing = ";<% } %>"
+	}
 	for i, s := range c.Steps {
 		if ci < len(c.Cuts) && c.Cuts[ci].At == i {
 			k := c.Cuts[ci]
@@ -508,9 +822,9 @@ func (c Case) forCut() int {
 	return -1
 }
 
-func spellPath(steps []Step) string {
+func spellPath(root string, steps []Step) string {
 	var sb strings.Builder
-	sb.WriteString("r")
+	sb.WriteString(root)
 	for _, s := range steps {
 		sb.WriteString(s.spell())
 	}
@@ -533,13 +847,70 @@ func (c Case) data() map[string]interface{} {
 			d["sw"] = append([]int(nil), w.Ints...)
 		}
 	}
-	root := mkRoot(c.Variant)
-	if c.Ptr {
-		d[c.Root] = root
-	} else {
-		d[c.Root] = *root
+	for _, s := range c.Steps {
+		for _, a := range s.A {
+			if a.N != "" {
+				if a.Int {
+					d[a.N] = a.I
+				} else {
+					d[a.N] = a.S
+				}
+			}
+		}
+	}
+	if c.Bulk > 0 {
+		d["bulk"] = make([]int, c.Bulk)
+	}
+	switch c.Fam {
+	case "node":
+		// the Node graph is large and never written (C11's templates have no assignment): the renders
+		// share one graph per recipe, the reference walks another; both are compared with a fresh one at the end
+		n := sharedNodes[c.Variant]
+		if c.Ptr {
+			d[c.Root] = n
+		} else {
+			d[c.Root] = *n
+		}
+	case "ext":
+		x := mkExt("x", c.Variant, 1)
+		if c.Ptr {
+			d[c.Root] = &x
+		} else {
+			d[c.Root] = x
+		}
+	default:
+		root := mkRoot(c.Variant)
+		if c.Ptr {
+			d[c.Root] = root
+		} else {
+			d[c.Root] = *root
+		}
 	}
 	return d
+}
+
+func mkRootNode(v int) *Node { n := mkNode("n", nodeDepth, nodeDepth, v); return &n }
+func mkRootExt(v int) *Ext   { x := mkExt("x", v, 1); return &x }
+
+var sharedNodes = [2]*Node{mkRootNode(0), mkRootNode(1)}
+var refNodes = [2]*Node{mkRootNode(0), mkRootNode(1)}
+var refExts = [2]*Ext{mkRootExt(0), mkRootExt(1)}
+
+// refStart: the value the reference walk starts from.
+func (c Case) refStart() cur {
+	var p reflect.Value
+	switch c.Fam {
+	case "node":
+		p = reflect.ValueOf(refNodes[c.Variant])
+	case "ext":
+		p = reflect.ValueOf(refExts[c.Variant])
+	default:
+		p = reflect.ValueOf(refRoots[c.Variant])
+	}
+	if c.Ptr {
+		return cur{p, true}
+	}
+	return cur{p.Elem(), true}
 }
 
 // ---- the reference: a reflection walk -----------------------------------------------
@@ -611,7 +982,7 @@ func apply(c cur, s Step) (out cur, why string, ptrOnTemp bool) {
 			return cur{c.v.Index(a.I), c.addr || c.v.Kind() == reflect.Slice}, "", false
 		case reflect.Map:
 			kk := c.v.Type().Key().Kind()
-			if a.Int != (kk == reflect.Int) || !a.Int && kk != reflect.String {
+			if kk != reflect.Interface && (a.Int != (kk == reflect.Int) || !a.Int && kk != reflect.String) {
 				return c, "wrong-key-type", false
 			}
 			var e reflect.Value
@@ -639,6 +1010,10 @@ func apply(c cur, s Step) (out cur, why string, ptrOnTemp bool) {
 			}
 			return c, "nil-pointer", false
 		}
+		if viaNilEmbedded(c.v, s.M) {
+			// Go panics here (value receiver) or calls the method with a nil receiver (pointer receiver)
+			return c, "unspec:method-through-nil-embedded-pointer", false
+		}
 		m := c.v.MethodByName(s.M)
 		if !m.IsValid() && c.v.Kind() != reflect.Ptr {
 			if _, ok := reflect.PtrTo(c.v.Type()).MethodByName(s.M); ok {
@@ -660,7 +1035,7 @@ func apply(c cur, s Step) (out cur, why string, ptrOnTemp bool) {
 		}
 		in := make([]reflect.Value, len(s.A))
 		for i, a := range s.A {
-			if a.Int != (mt.In(i).Kind() == reflect.Int) || !a.Int && mt.In(i).Kind() != reflect.String {
+			if pk := mt.In(i).Kind(); pk != reflect.Interface && (a.Int != (pk == reflect.Int) || !a.Int && pk != reflect.String) {
 				return c, "bad-arguments", false
 			}
 			if a.Int {
@@ -684,7 +1059,36 @@ func apply(c cur, s Step) (out cur, why string, ptrOnTemp bool) {
 	if sf.PkgPath != "" {
 		return c, "unexported-member", false
 	}
-	return cur{c.v.FieldByIndex(sf.Index), c.addr}, "", false
+	// a promoted field: through the embedded structs, by value or by pointer
+	v := c.v
+	for i, ix := range sf.Index {
+		if i > 0 && v.Kind() == reflect.Ptr {
+			if v.IsNil() {
+				return c, "nil-pointer", false
+			}
+			v = v.Elem()
+		}
+		v = v.Field(ix)
+	}
+	return cur{v, c.addr}, "", false
+}
+
+// viaNilEmbedded: the method name belongs to a struct embedded by pointer, and that pointer is nil.
+func viaNilEmbedded(v reflect.Value, name string) bool {
+	for v.Kind() == reflect.Ptr && !v.IsNil() {
+		v = v.Elem()
+	}
+	if v.Kind() != reflect.Struct {
+		return false
+	}
+	for i := 0; i < v.NumField(); i++ {
+		if f := v.Type().Field(i); f.Anonymous && f.Type.Kind() == reflect.Ptr && v.Field(i).IsNil() {
+			if _, ok := f.Type.MethodByName(name); ok {
+				return true
+			}
+		}
+	}
+	return false
 }
 
 // walk applies steps and reads the leaf.
@@ -1039,11 +1443,44 @@ var refRoots = [2]*Root{mkRoot(0), mkRoot(1)}
 func render(c Case) (string, vk.Res) {
 	src := c.template()
 	d := c.data()
+	if c.pre != nil {
+		return src, vk.Safe(func() (string, error) {
+			if c.pre.err != nil {
+				return "", c.pre.err
+			}
+			return c.pre.t.Exec(plush.NewContextWith(d))
+		})
+	}
 	return src, vk.Safe(func() (string, error) { return plush.Render(src, plush.NewContextWith(d)) })
 }
 
-func checkCase(r *vk.Run, c Case) (out *vk.Fail) {
+// checkCase judges one case; a Reexec case is one parse followed by one
+// judged execution per entry.
+func checkCase(r *vk.Run, c Case) *vk.Fail {
+	if len(c.Reexec) == 0 {
+		return checkOne(r, c)
+	}
 	defer r.Watch("path", c)()
+	var pre parsed
+	if p := vk.Safe(func() (string, error) { pre.t, pre.err = plush.Parse(c.template()); return "", nil }); p.Panicked() {
+		return &vk.Fail{Kind: "path", Case: c, Msg: fmt.Sprintf("%s: parsing: %s", c.template(), p)}
+	}
+	for i, e := range c.Reexec {
+		k := c
+		k.Reexec, k.Variant, k.Ptr, k.pre = nil, e.Variant, e.Ptr, &pre
+		if f := checkOne(r, k); f != nil {
+			f.Case = c
+			f.Msg = fmt.Sprintf("execution %d of %d of ONE parsed template (recipes / root forms %v): %s", i+1, len(c.Reexec), c.Reexec, f.Msg)
+			return f
+		}
+	}
+	return nil
+}
+
+func checkOne(r *vk.Run, c Case) (out *vk.Fail) {
+	if c.pre == nil {
+		defer r.Watch("path", c)()
+	}
 	// class: a full class name, or the bare kind "clean-failure" / "wrong-value",
 	// resolved to the listed shape class of that kind the case belongs to, if any
 	fail := func(class, f string, a ...interface{}) *vk.Fail {
@@ -1062,15 +1499,12 @@ func checkCase(r *vk.Run, c Case) (out *vk.Fail) {
 		return nil
 	}
 	// the reference walks its own copy of the data (never handed to plush, never written)
-	root := refRoots[c.Variant]
-	start := cur{reflect.ValueOf(root), true}
-	if !c.Ptr {
-		start = cur{reflect.ValueOf(*root), true}
-	}
+	start := c.refStart()
 	src, res := render(c)
 	sig := c.sig()
-	path := spellPath(c.Steps)
-	where := fmt.Sprintf("%s  [data variant %d, %s = %s]", src, c.Variant, c.Root, map[bool]string{true: "*Root", false: "Root"}[c.Ptr])
+	path := canonLeaf(spellPath(c.rootSpell(), c.Steps))
+	tn := map[string]string{"": "Root", "node": "Node", "ext": "Ext"}[c.Fam]
+	where := fmt.Sprintf("%s  [data variant %d, %s = %s]", src, c.Variant, c.Root, map[bool]string{true: "*" + tn, false: tn}[c.Ptr])
 
 	if res.Panicked() {
 		shapeStats.add(sig, 4)
@@ -1091,6 +1525,19 @@ func checkCase(r *vk.Run, c Case) (out *vk.Fail) {
 
 	if c.Sweep != nil {
 		return judgeSweep(r, c, start, res, where, fail)
+	}
+	if c.Bulk > 0 && res.Err == nil {
+		// one segment per evaluation; all must be the same, and that one is judged
+		segs := strings.Split(res.Out, ";")
+		if len(segs) != c.Bulk+1 || segs[c.Bulk] != "" {
+			return fail("", "%s: %d evaluations in one render, but the output has %d segments", where, c.Bulk, len(segs)-1)
+		}
+		for i, sg := range segs[:c.Bulk] {
+			if sg != segs[0] {
+				return fail("", "%s: evaluation %d of %d in one render gave %q, the first gave %q", where, i+1, c.Bulk, sg, segs[0])
+			}
+		}
+		res.Out = segs[0]
 	}
 	fc := c.forCut()
 	if fc < 0 {
@@ -1117,7 +1564,7 @@ func judgeSweep(r *vk.Run, c Case, start cur, res vk.Res, where string, fail fai
 			r.Exclude("unspecified/sweep-body")
 			return nil
 		case w.ok:
-			if sp := spellPath(steps); w.val != sp {
+			if sp := canonLeaf(spellPath(c.rootSpell(), steps)); w.val != sp {
 				panic(fmt.Sprintf("harness: leaf reached by %s spells %q", sp, w.val))
 			}
 			want[i] = w.val
@@ -1451,7 +1898,7 @@ func judgeFor(r *vk.Run, c Case, fc int, start cur, res vk.Res, where string, fa
 		r.Exclude("unspecified/for-over-non-collection")
 		return nil
 	}
-	pre := spellPath(prefix)
+	pre := spellPath(c.rootSpell(), prefix)
 	want := map[string]string{} // key -> expected value ("" = must be empty)
 	whys := map[string]string{} // key -> why the element's path cannot be completed
 	allOK, anyUnspec := true, false
@@ -1461,6 +1908,7 @@ func judgeFor(r *vk.Run, c Case, fc int, start cur, res vk.Res, where string, fa
 		for _, s := range rest {
 			full += s.spell()
 		}
+		full = canonLeaf(full)
 		switch {
 		case w.unspec != "" || w.addrUnspe:
 			anyUnspec = true
@@ -1597,9 +2045,30 @@ var (
 	tRoot   = reflect.TypeOf(Root{})
 	tMid    = reflect.TypeOf(Mid{})
 	tLeaf   = reflect.TypeOf(Leaf{})
-	// dynamic types an interface-typed field holds in the recipes
-	anyAlts = []reflect.Type{tMid, tLeaf, tString, reflect.TypeOf([]string{})}
+	tNode   = reflect.TypeOf(Node{})
+	tExt    = reflect.TypeOf(Ext{})
+	// dynamic types an interface-typed field or element holds in the recipes, per family
+	anyAlts = map[string][]reflect.Type{
+		"":     {tMid, tLeaf, tString, reflect.TypeOf([]string{})},
+		"node": {tNode},
+		"ext":  {tLeaf, tString, reflect.TypeOf(P{}), reflect.TypeOf(Q{}), reflect.TypeOf(map[string]interface{}{}), reflect.TypeOf([]interface{}{})},
+	}
 )
+
+func famRoot(fam string) reflect.Type {
+	switch fam {
+	case "node":
+		return tNode
+	case "ext":
+		return tExt
+	}
+	return tRoot
+}
+
+type candKey struct {
+	t   reflect.Type
+	fam string
+}
 
 func ia(i int, v bool) []Arg    { return []Arg{{Int: true, I: i, Var: v}} }
 func sa(s string, v bool) []Arg { return []Arg{{S: s, Var: v}} }
@@ -1608,16 +2077,16 @@ var candCache sync.Map
 
 // cands lists every step that can follow a value of static type t: all the
 // good ones (by reflection over t) and the deliberately broken ones.
-func cands(t reflect.Type) []cand {
-	if v, ok := candCache.Load(t); ok {
+func cands(t reflect.Type, fam string) []cand {
+	if v, ok := candCache.Load(candKey{t, fam}); ok {
 		return v.([]cand)
 	}
-	out := cands0(t)
-	candCache.Store(t, out)
+	out := cands0(t, fam)
+	candCache.Store(candKey{t, fam}, out)
 	return out
 }
 
-func cands0(t reflect.Type) []cand {
+func cands0(t reflect.Type, fam string) []cand {
 	for t.Kind() == reflect.Ptr {
 		t = t.Elem()
 	}
@@ -1626,8 +2095,8 @@ func cands0(t reflect.Type) []cand {
 	switch t.Kind() {
 	case reflect.Interface:
 		seen := map[string]bool{}
-		for _, alt := range anyAlts {
-			for _, c := range cands(alt) {
+		for _, alt := range anyAlts[fam] {
+			for _, c := range cands(alt, fam) {
 				k := c.st.src()
 				if !seen[k] {
 					seen[k] = true
@@ -1636,8 +2105,7 @@ func cands0(t reflect.Type) []cand {
 			}
 		}
 	case reflect.Struct:
-		for i := 0; i < t.NumField(); i++ {
-			f := t.Field(i)
+		for _, f := range reflect.VisibleFields(t) { // the struct's own fields and the promoted ones
 			if f.PkgPath != "" {
 				if f.Name == "hidden" {
 					out = append(out, cand{Step{F: f.Name}, nil, "unexported-member"})
@@ -1687,7 +2155,15 @@ func cands0(t reflect.Type) []cand {
 		}
 		out = append(out, cand{Step{F: "Name"}, nil, "unknown-member"})
 	case reflect.Map:
-		if t.Key().Kind() == reflect.String {
+		if t.Key().Kind() == reflect.Interface {
+			// keys of both types are good
+			for _, v := range lv {
+				out = append(out,
+					cand{Step{X: true, A: sa("a", v)}, t.Elem(), ""}, cand{Step{X: true, A: ia(1, v)}, t.Elem(), ""},
+					cand{Step{X: true, A: sa("b", v)}, t.Elem(), ""}, cand{Step{X: true, A: ia(3, v)}, t.Elem(), ""},
+					cand{Step{X: true, A: sa("z", v)}, t.Elem(), "missing-key"}, cand{Step{X: true, A: ia(0, v)}, t.Elem(), "missing-key"})
+			}
+		} else if t.Key().Kind() == reflect.String {
 			for _, k := range []string{"a", "b", "z"} {
 				for _, v := range lv {
 					b := ""
@@ -1735,10 +2211,10 @@ func leafType(t reflect.Type) bool {
 // leaf type or at/after a broken step (at most one broken step per path).
 // litOnly / mixed control literal vs variable indexes: mode 0 = every
 // combination, 1 = all literal, 2 = all variable.
-func enumerate(maxLen, mode int, emit func(steps []Step, broken string)) {
+func enumerate(fam string, maxLen, mode int, emit func(steps []Step, broken string)) {
 	var rec func(t reflect.Type, steps []Step, broken string)
 	rec = func(t reflect.Type, steps []Step, broken string) {
-		for _, c := range cands(t) {
+		for _, c := range cands(t, fam) {
 			if c.broken != "" && broken != "" {
 				continue
 			}
@@ -1769,14 +2245,14 @@ func enumerate(maxLen, mode int, emit func(steps []Step, broken string)) {
 			}
 		}
 	}
-	rec(tRoot, nil, "")
+	rec(famRoot(fam), nil, "")
 }
 
 // collSteps lists the steps from struct type t that lead to a collection:
 // collection-typed fields and argument-less methods returning one.
 func collSteps(t reflect.Type) []cand {
 	var out []cand
-	for _, c := range cands(t) {
+	for _, c := range cands(t, "") {
 		if c.broken != "" || c.next == nil || len(c.st.A) > 0 {
 			continue
 		}
@@ -1922,6 +2398,139 @@ func usages(steps []Step, letName string) []usage {
 	return out
 }
 
+// ---- the Node family: paths as sequences of hops --------------------------------------------------
+
+// hop: one way from a Node to a Node.
+type hop struct {
+	code  byte
+	steps func(alt int, v bool) []Step
+}
+
+var hops = []hop{
+	{'K', func(alt int, v bool) []Step { return []Step{{F: "Kids"}, {X: true, A: ia(alt, v)}} }},
+	{'N', func(alt int, v bool) []Step { return []Step{{F: "Next"}} }},
+	{'M', func(alt int, v bool) []Step { return []Step{{F: "M"}, {X: true, A: sa([]string{"b", "a"}[alt], v)}} }},
+	{'C', func(alt int, v bool) []Step { return []Step{{M: "Kid", A: ia(alt, v)}} }},
+	{'P', func(alt int, v bool) []Step { return []Step{{M: "PKid", A: ia(alt, v)}} }},
+	{'G', func(alt int, v bool) []Step { return []Step{{M: "GetKids"}, {X: true, A: ia(alt, v)}} }},
+	{'A', func(alt int, v bool) []Step { return []Step{{F: "Any"}} }},
+}
+
+var nodeTails = []func(v bool) []Step{
+	func(v bool) []Step { return []Step{{F: "Name"}} },
+	func(v bool) []Step { return []Step{{M: "Hello"}} },
+	func(v bool) []Step { return []Step{{M: "Greet", A: sa("x", v)}} },
+	func(v bool) []Step { return []Step{{M: "Echo", A: ia(1, v)}} },
+}
+
+// hopPaths calls emit for every sequence of n hops followed by every tail. The
+// index / key / argument of hop k is alt = (pat>>k)&1 and is a variable when
+// bit k of vars is set; pat and vars are derived from the path's number so that
+// neighbouring paths differ.
+func hopPaths(n int, emit func(steps []Step, codes string)) {
+	idx := make([]int, n)
+	num := 0
+	for {
+		for ti, tail := range nodeTails {
+			num++
+			pat, vars := num*7, num*13+ti
+			var steps []Step
+			codes := make([]byte, n)
+			for k, h := range idx {
+				steps = append(steps, hops[h].steps((pat>>k)&1, (vars>>k)&1 == 1)...)
+				codes[k] = hops[h].code
+			}
+			steps = append(steps, tail((vars>>n)&1 == 1)...)
+			emit(steps, string(codes))
+		}
+		k := n - 1
+		for ; k >= 0; k-- {
+			idx[k]++
+			if idx[k] < len(hops) {
+				break
+			}
+			idx[k] = 0
+		}
+		if k < 0 {
+			return
+		}
+	}
+}
+
+// renamings lists the cases in which ONE variable argument of the path is
+// given the name of a member or method that occurs EARLIER in the path (a
+// template variable called Kids used as an index below .Kids[0]): in Go a
+// local variable and a member of the same name do not see each other.
+func renamings(steps []Step) [][]Step {
+	var out [][]Step
+	for j, st := range steps {
+		for ai, a := range st.A {
+			if !a.Var {
+				continue
+			}
+			seen := map[string]bool{}
+			for _, e := range steps[:j] {
+				n := e.F + e.M
+				if n == "" || seen[n] {
+					continue
+				}
+				seen[n] = true
+				cp := append([]Step(nil), steps...)
+				cp[j].A = append([]Arg(nil), st.A...)
+				cp[j].A[ai].N = n
+				out = append(out, cp)
+			}
+		}
+	}
+	return out
+}
+
+// slimUsages: the placements tried for the paths of the Node and Ext families:
+// plain emit, emit twice, one let (at a position that rotates with the path's
+// number, and directly before every index), one for at every index step.
+func slimUsages(steps []Step, num int, letName string) []usage {
+	out := []usage{{nil, false}, {nil, true}}
+	if len(steps) > 1 {
+		at := 1 + num%(len(steps)-1)
+		out = append(out, usage{[]Cut{{At: at, V: letName}}, false})
+	}
+	for at := 1; at < len(steps); at++ {
+		if steps[at].X {
+			out = append(out, usage{[]Cut{{At: at, For: true, V: "e"}}, false})
+			if num%2 == 0 {
+				out = append(out, usage{[]Cut{{At: at, V: letName}}, true})
+			}
+		}
+	}
+	return out
+}
+
+// spine: depth hops of one kind (or alternating kinds) and a tail: the long paths.
+func spines(emit func(steps []Step)) {
+	kinds := []string{"K", "N", "M", "C", "P", "KN", "KC", "CK", "MC", "KM", "GK", "KNC", "CNK"}
+	for _, depth := range []int{6, 9} {
+		for ki, kind := range kinds {
+			for vars := 0; vars < 2; vars++ {
+				var steps []Step
+				for k := 0; k < depth; k++ {
+					code := kind[k%len(kind)]
+					for _, h := range hops {
+						if h.code == code {
+							alt := 0
+							if code != 'K' && code != 'M' { // Kids[0] and M[b] are the deep children
+								alt = k % 2
+							}
+							steps = append(steps, h.steps(alt, vars == 1)...)
+						}
+					}
+				}
+				steps = append(steps, nodeTails[(ki+depth)%len(nodeTails)](vars == 1)...)
+				emit(steps)
+			}
+		}
+	}
+}
+
 const rule = "data: Root/Mid/Leaf/Inner graphs (value and pointer fields, nil pointers, slices, arrays, map[string], map[int], slices/maps of pointers with nil elements, interface-typed fields, value- and pointer-receiver methods with 0-2 arguments returning strings, structs, pointers, nil, slices and maps; the member names Name, Arr, M, IM, Any, Hello repeat at every depth) in 2 recipes x root passed as Root or *Root; every leaf string spells its own Go path with [A-Za-z0-9_.,()\\[\\]] only (keys and arguments unquoted). Paths: walks over the TYPE graph by reflection (field, index/key, method-call steps; literal and context-variable indexes, keys and arguments): (E1) every walk of <= L steps (quick: 3, plus every 5th walk of 4 steps; thorough: 4) that ends at a string or at a deliberately broken step (missing key, index = len and beyond, negative index, wrong key type, unknown / unexported member, field called as method, indexing a struct; nil pointers and short slices come from the data); (E2) two and three INDEXED levels r.C1[i].C2[j].C3[k] over every combination of collection-valued members; (R) random walks of up to 7+ steps with random root and variable names (names that collide with member names included). Each path is placed in <%= %> (once, and twice in a row), behind `let v = prefix` at every position, and as a `for (kk, v) in prefix` iterable at every index step (the rest continues from the loop variable; every element is checked), also let+for combined; (E3/R) SWEEPS: the whole body is put in one loop body and evaluated once per value of a variable q (loop key, loop value, or `let q = value` re-assigned in the loop scope) that stands for one or several inner indexes / keys / method arguments of the path, so the same expression node is evaluated 2-4 times in one scope with different inner indexes; every evaluation is compared with the reference walk for its value. Reference: a reflection walk of the same steps over a separate copy of the same data. Verdict per path: completable => output == the leaf's spelled path; not completable => error or empty output; a panic or any other text => violation; a clean failure of a completable path is a violation unless its shape is a listed open class. Non-trivial = broken path, or completable path of >= 3 steps containing an index, a method call or a cut; distinct by (recipe, root form, names, steps, cuts, twice)."
 
 func setup(t *testing.T) *vk.Run {
@@ -1963,17 +2572,17 @@ func TestProp(t *testing.T) {
 	// (E) exhaustive walks
 	t0 := time.Now()
 	if n, _ := strconv.Atoi(os.Getenv("C11_RAPID_ONLY")); n > 0 { // debug aid
-		r.Rapid("walks", n, func(t *rapid.T) *vk.Fail { return checkCase(r, genCase(t)) })
+		r.Rapid("walks", n, func(t *rapid.T) *vk.Fail { return checkCase(r, genCase(t, "")) })
 		dumpShapes(r)
 		return
 	}
 	L := r.Pick(3, 4)
 	var paths []pathRec
-	enumerate(L, 0, func(s []Step, b string) { paths = append(paths, pathRec{s, b}) })
+	enumerate("", L, 0, func(s []Step, b string) { paths = append(paths, pathRec{s, b}) })
 	full := int64(len(paths))
 	if r.Quick() {
 		n := 0
-		enumerate(4, 0, func(s []Step, b string) {
+		enumerate("", 4, 0, func(s []Step, b string) {
 			if len(s) == 4 {
 				if n%5 == int(r.Seed%5) {
 					paths = append(paths, pathRec{s, b})
@@ -2032,12 +2641,138 @@ func TestProp(t *testing.T) {
 	r.Parallel(int64(len(sweeps)), 0, func(i int64) { r.Check(checkCase(r, sweeps[i])) })
 	r.Subspace("sweeps: for every path above and every variable index / key / method argument in it (one at a time - in the quick tier only those that follow an earlier index or call step, or are method arguments - and all of one type together): the whole body inside ONE loop that gives the variable 3-4 different values (loop key 0,1,2; loop value 1,0,3,1 / a,b,z,a; let q = value re-assigned in the loop scope 0,1,0 / b,a,b), also behind a let of the prefix, x 2 data recipes; every evaluation is compared with the reference walk for that value", int64(len(sweeps)), true)
 
+	// (E4) the Node and Ext families
+	var fcases []Case
+	nodeRoots := []string{"n", "x", "Next", "Kids", "Kid", "M"}
+	letNames := []string{"y", "Kids", "Next", "M", "Kid"}
+	place := func(fam string, steps []Step, num int, us []usage) {
+		root := "x"
+		if fam == "node" {
+			root = nodeRoots[num%len(nodeRoots)]
+		}
+		for variant := 0; variant < 2; variant++ {
+			for _, u := range us {
+				fcases = append(fcases, Case{Fam: fam, Variant: variant, Ptr: (num+variant)%2 == 1, Root: root, Steps: steps, Cuts: u.cuts, Twice: u.twice})
+			}
+		}
+	}
+	brokenUsages := func(steps []Step) []usage {
+		out := []usage{{nil, false}}
+		for at := 1; at < len(steps); at++ {
+			if steps[at].X {
+				out = append(out, usage{[]Cut{{At: at, For: true, V: "e"}}, false})
+			}
+		}
+		return out
+	}
+	var hopShort [][]Step // the hop paths of <= 3 hops, for the renaming, sweep, re-execution and bulk phases
+	num := 0
+	var nhop [5]int64
+	for n := 1; n <= 4; n++ {
+		hopPaths(n, func(steps []Step, codes string) {
+			nhop[n]++
+			num++
+			if n == 4 && r.Quick() && num%8 != int(r.Seed%8) {
+				return
+			}
+			if n <= 3 {
+				hopShort = append(hopShort, steps)
+			}
+			place("node", steps, num, slimUsages(steps, num, letNames[num%len(letNames)]))
+		})
+	}
+	nHopCases := int64(len(fcases))
+	spines(func(steps []Step) {
+		num++
+		place("node", steps, num, slimUsages(steps, num, "y"))
+	})
+	nSpineCases := int64(len(fcases)) - nHopCases
+	for _, fam := range []string{"node", "ext"} {
+		enumerate(fam, 3, 0, func(steps []Step, b string) {
+			num++
+			switch {
+			case b != "":
+				place(fam, steps, num, brokenUsages(steps))
+			case fam == "ext":
+				place(fam, steps, num, slimUsages(steps, num, []string{"y", "Grid", "MM", "JS"}[num%4]))
+				// the same path below an index and below a call
+				if num%2 == 0 {
+					place(fam, append([]Step{{F: "Xs"}, {X: true, A: ia(num/2%2, num%4 == 0)}}, steps...), num, []usage{{nil, false}})
+				} else {
+					place(fam, append([]Step{{M: "GetX"}}, steps...), num, []usage{{nil, false}})
+				}
+			}
+		})
+	}
+	nEnumCases := int64(len(fcases)) - nHopCases - nSpineCases
+	// a variable argument named like an earlier member of the path
+	for i, steps := range hopShort {
+		for _, rs := range renamings(steps) {
+			fcases = append(fcases, Case{Fam: "node", Variant: i % 2, Ptr: i%4 < 2, Root: "n", Steps: rs})
+		}
+	}
+	nRenCases := int64(len(fcases)) - nHopCases - nSpineCases - nEnumCases
+	// sweeps over the short hop paths and the Ext walks
+	var extGood [][]Step
+	enumerate("ext", 3, 2, func(steps []Step, b string) {
+		if b == "" {
+			extGood = append(extGood, steps)
+		}
+	})
+	nsw0 := int64(len(fcases))
+	for i, steps := range hopShort {
+		if len(steps) > 5 && r.Quick() {
+			continue // quick: the paths of one and two hops
+		}
+		for _, sc := range sweepsOf(steps, "y", true) {
+			sc.Fam, sc.Variant, sc.Ptr, sc.Root = "node", i%2, i%4 < 2, "n"
+			fcases = append(fcases, sc)
+		}
+	}
+	for i, steps := range extGood {
+		for _, sc := range sweepsOf(steps, "y", false) {
+			sc.Fam, sc.Variant, sc.Ptr, sc.Root = "ext", i%2, i%4 < 2, "x"
+			fcases = append(fcases, sc)
+		}
+	}
+	nSweepCases := int64(len(fcases)) - nsw0
+	// ONE parsed template executed against three data sets (other recipe, other root form, the first again)
+	nre0 := int64(len(fcases))
+	for i, steps := range hopShort {
+		if r.Thorough() || i%2 == int(r.Seed%2) {
+			fcases = append(fcases, Case{Fam: "node", Root: "n", Steps: steps, Reexec: []Exec{{0, false}, {1, true}, {0, true}, {0, false}}})
+		}
+	}
+	for _, steps := range extGood {
+		fcases = append(fcases, Case{Fam: "ext", Root: "x", Steps: steps, Reexec: []Exec{{1, true}, {0, false}, {1, false}, {1, true}}})
+	}
+	nReCases := int64(len(fcases)) - nre0
+	// one render that evaluates the path very many times
+	nbulk0 := int64(len(fcases))
+	for i, steps := range [][]Step{
+		{{F: "Kids"}, at(lit(0)), {F: "Kids"}, at(vr(lit(1))), {F: "Name"}},
+		{call("Kid", lit(0)), call("Kid", vr(lit(1))), {F: "Name"}},
+		{{F: "M"}, at(key("b")), {F: "Kids"}, at(vr(lit(0))), call("Hello")},
+		{{F: "Kids"}, at(lit(0)), {F: "Next"}, {F: "Name"}},
+		{call("GetKids"), at(lit(1)), call("Greet", vr(key("x")))},
+	} {
+		fcases = append(fcases, Case{Fam: "node", Variant: i % 2, Ptr: i%2 == 1, Root: "n", Steps: steps, Bulk: 1100})
+	}
+	r.Parallel(int64(len(fcases)), 0, func(i int64) { r.Check(checkCase(r, fcases[i])) })
+	r.Subspace(fmt.Sprintf("Node family: every sequence of 1-3 hops (.Kids[i] .Next .M[k] .Kid(i) .PKid(i) .GetKids()[i] .Any; %d+%d+%d sequences x 4 tails .Name .Hello() .Greet(s) .Echo(any)) and of 4 hops (%d; the quick tier takes every 8th), literal/variable pattern varying with the path, root and let names that are member names; x usages (emit once/twice, a let, a for at every index step) x 2 recipes", nhop[1]/4, nhop[2]/4, nhop[3]/4, nhop[4]), nHopCases, r.Thorough())
+	r.Subspace("Node family: long paths: 6 and 9 hops of one kind or of alternating kinds (13 kinds) x literal/variable x usages x 2 recipes", nSpineCases, true)
+	r.Subspace("Node and Ext families: every walk of <= 3 steps over the type graph: broken walks as emit and as for iterable; completable Ext walks (embedded and promoted members, consecutive indexes, interface-typed elements, named collection types, pointer to array) x usages, and once more below x.Xs[i] / x.GetX(); x 2 recipes", nEnumCases, true)
+	r.Subspace("Node family: for every path of <= 3 hops, every variable argument and every member or method name that occurs earlier in the path: the variable is given that name", nRenCases, true)
+	r.Subspace("Node and Ext families: sweeps (as above) over the hop paths (quick: <= 2 hops) and the all-variable Ext walks of <= 3 steps", nSweepCases, r.Thorough())
+	r.Subspace("ONE parsed template executed 4 times against different data (recipe 0/1, root by value / by pointer, the first again): hop paths of <= 3 hops (quick: every 2nd) and Ext walks of <= 3 steps", nReCases, r.Thorough())
+	r.Subspace("one render that evaluates an indexed / chained path 1100 times (state leaking from one evaluation to the next within a render)", int64(len(fcases))-nbulk0, true)
+
 	if debug {
 		fmt.Printf("E phase done after %v\n", time.Since(t0))
 	}
 	// (R) random walks up to 7 steps
 	r.Rapid("walks", r.Pick(6000, 60000), func(t *rapid.T) *vk.Fail {
-		return checkCase(r, genCase(t))
+		return checkCase(r, genCase(t, ""))
 	})
 
 	dumpShapes(r)
@@ -2055,17 +2790,18 @@ func TestProp(t *testing.T) {
 var rootNames = []string{"r", "x", "M", "Mid", "Leaves", "Name"}
 var varNames = []string{"x", "y", "M", "Mid", "Leaf", "Name", "r", "e"}
 
-func genCase(t *rapid.T) Case {
+func genCase(t *rapid.T, fam string) Case {
 	c := Case{
+		Fam:     fam,
 		Variant: rapid.IntRange(0, 1).Draw(t, "variant"),
 		Ptr:     rapid.Bool().Draw(t, "ptr"),
 		Root:    rapid.SampledFrom(rootNames).Draw(t, "root"),
 	}
 	n := rapid.SampledFrom([]int{2, 3, 4, 4, 5, 5, 6, 6, 7, 7}).Draw(t, "len")
-	ty := tRoot
+	ty := famRoot(fam)
 	broken := false
 	for len(c.Steps) < 9 {
-		cs := cands(ty)
+		cs := cands(ty, fam)
 		var good, bad []cand
 		for _, k := range cs {
 			if k.broken == "" {
